@@ -8,6 +8,7 @@ from specs import startup, event_entry, lifecycle, simulate
 def build(run):
     startup.verify_startup(run)
     lifecycle.verify_init_async(run)
+    startup.verify_async_init_addon(run)   # AddonAsyncInit (ValuePoll): init_async returns only when the block has an output
     lifecycle.verify_api(run)
     lifecycle.verify_run_forever(run)      # order of the start-up steps; invariant J at its suspension points
     simulate.verify_simulate(run)          # invariant J at the idle point: every block has an output
